@@ -90,7 +90,6 @@ async def sim_process(
     Coroutine running the simulator *sim*.
     """
     sim.started = True
-    sim.rt_start = rt_start = perf_counter()
 
     try:
         advance_progress(sim, world)
@@ -117,7 +116,10 @@ async def sim_process(
             input_data = get_input_data(world, sim)
             max_advance = get_max_advance(world, sim, until)
             await step(world, sim, input_data, max_advance)
-            rt_check(rt_factor, rt_start, rt_strict, sim)
+            # (run() has given all simulators the same real-time reference;
+            # it must not be reset here: an earlier process's sweep has
+            # already advanced our progress relative to it.)
+            rt_check(rt_factor, sim.rt_start, rt_strict, sim)
             await get_outputs(world, sim)
             sim.current_step = None
             notify_dependencies(sim)
